@@ -28,6 +28,9 @@ class ConcViolation(Violation):
             for i, (pre, _) in enumerate(sp['threads']):
                 if pre:
                     f.write('pre %d %s\n' % (i + 1, pre))
+            if getattr(self, 'freeze', None):
+                f.write('freeze %s\n' % ' '.join(str(t) for t in self.freeze))
+                f.write('subject %d\n' % self.subject_thread)
 
 
 _enum_cache = {}
@@ -103,7 +106,7 @@ def freeze(summ):
     return {a: (frozenset(v[0]), v[1], v[2]) for a, v in summ.items()}
 
 
-def run_conc(sess, spec, loop_bound=6, max_rounds=8, timeout_s=600, max_spurious=1, scenario=None, extract_only=False, hb=False):
+def run_conc(sess, spec, loop_bound=6, max_rounds=8, timeout_s=600, max_spurious=1, scenario=None, extract_only=False, hb=False, subject=None):
     """spec = {'setup': fn, 'threads': [(pre_fn|None, body_fn), ...], 'final': fn|None, 'covers': [...]}"""
     scenario = scenario or spec.get('name') or '+'.join(b for _, b in spec['threads'])
     t0 = time.time()
@@ -220,6 +223,7 @@ def run_conc(sess, spec, loop_bound=6, max_rounds=8, timeout_s=600, max_spurious
                 'extract_s': extract_s, 'scenario': scenario}
     enc = Encoding(eng, base, leaves, nthreads)
     enc.hb_mode = hb
+    enc.subject = subject
     res = enc.decide(spec, scenario, timeout_s)
     res.update({'scenario': scenario, 'mode': 'M2hb (SC executions, C11 happens-before)' if hb else 'M2-SC', 'threads': nthreads, 'rounds': rounds,
                 'paths': sum(len(v) for v in leaves.values()), 'instrs': eng.stats['instrs'],
@@ -269,7 +273,7 @@ def _check_one(idx):
     if r == z3.sat:
         res = 'sat'
         o, u = enc._items[idx]
-        if not (o is not None and o[2].kind == 'bound'):
+        if not (o is not None and o[2].kind == 'bound' and enc.subject is None):
             payload = enc.make_violation(S.model(), enc._spec, enc._scenario, o, u)
     elif r == z3.unknown:
         res = 'unknown'
@@ -314,6 +318,8 @@ class Encoding:
         self.nasserts = 0
         self.keep_all = False
         self.hb_mode = False
+        self.subject = None      # C09: thread that runs alone after all others froze
+        self.cut = {}
         self.clock_bits = int(os.environ.get('IRSYM_CLOCK_BITS', '14'))
 
     def g(self, conds):
@@ -324,8 +330,18 @@ class Encoding:
             self.guard_cache[key] = r
         return r
 
-    def wrote(self, e):
+    def xg(self, e):
+        """e is executed: its path condition holds and, for a thread that may be frozen (C09), it lies before
+        that thread's freezing point."""
         ge = self.g(e.guard)
+        c = self.cut.get(e.thread)
+        if c is not None and e.id in self.clk:
+            le = z3.ULE if self.clock_bits else (lambda a_, b_: a_ <= b_)
+            return z3.And(ge, le(self.clk[e.id], c))
+        return ge
+
+    def wrote(self, e):
+        ge = self.xg(e)
         if e.kind == 'C':
             s = e.succ
             if isinstance(s, int):
@@ -403,6 +419,16 @@ class Encoding:
             if e.id in self.pos:
                 x = self.cvar[(e.thread, self.pos[e.id])]
                 self.clk[e.id] = x if width else x * nth + e.thread
+        if self.subject is not None:
+            sub_first = [x for (t, k), x in sorted(self.cvar.items(), key=lambda kv: kv[0]) if t == self.subject]
+            for t in used:
+                if t in (0, self.subject):
+                    continue
+                c_ = z3.BitVec('cut_%d' % t, width) if width else z3.Int('cut_%d' % t)
+                self.cut[t] = c_
+                if sub_first:
+                    first = sub_first[0] if width else sub_first[0] * nth + self.subject
+                    cons.append(self.lt(c_, first))
         for (t, k), x in self.cvar.items():
             c = x if width else x * nth + t
             if t == 0:
@@ -462,7 +488,7 @@ class Encoding:
             for r in rs:
                 if r.local:
                     continue
-                ge = self.g(r.guard)
+                ge = self.xg(r)
                 size = r.size
                 rv = ex.as_bv(r.rval, size * 8)
                 others = [w for w in ws if w.thread != r.thread and (w.thread != 0 or r.thread == 0)]
@@ -684,6 +710,9 @@ class Encoding:
                 continue
             done = [self.g(tuple(leaf.pc)) for leaf in lv if leaf.status == 'done']
             complete.append(z3.Or(*done) if done else z3.BoolVal(False))
+        if self.subject is not None:
+            obligations = [(t, leaf, ob) for (t, leaf, ob) in obligations if t == self.subject and ob.kind in ('bound', 'blocking')]
+            uaf = []
         for (t, leaf, ob) in obligations:
             c = self.g(ob.guard)
             if ob.cond is not None:
@@ -718,7 +747,7 @@ class Encoding:
                 if key in done_keys:
                     continue
                 done_keys.add(key)
-                if o is not None and o[2].kind == 'bound':
+                if o is not None and o[2].kind == 'bound' and self.subject is None:
                     inconclusive.append(o[2].msg + ' (reachable under SC: raise the bound)')
                 else:
                     violations.append(payload)
@@ -773,11 +802,16 @@ class Encoding:
         act = []
         per_thread = {}
         for e in self.events.values():
-            if z3.is_true(m.eval(self.g(e.guard), model_completion=True)):
+            if z3.is_true(m.eval(self.xg(e), model_completion=True)):
                 per_thread.setdefault(e.thread, []).append(e)
         for t, evs in per_thread.items():
             evs.sort(key=lambda e: e.po)
             last = -1
+            if t in self.cut:
+                # a frozen thread stops at its last clocked event before the cut
+                clocked = [e for e in evs if e.id in self.clk]
+                lastpo = clocked[-1].po if clocked else -1
+                evs = [e for e in evs if e.po <= lastpo]
             for e in evs:
                 if e.id in self.clk:
                     last = m.eval(self.clk[e.id], model_completion=True).as_long()
@@ -831,6 +865,10 @@ class Encoding:
                     hex(wv) if wv is not None else '-', eng.loc(e.ins).split(' <- ')[-2 if ' <- ' in eng.loc(e.ins) else 0]))
         v = ConcViolation(scenario, kind, ident, msg, inputs={'nondet': {str(k): v for k, v in nondet.items()}},
                           thread=t, where=where, schedule=sched, spec=spec, nondet=nondet)
+        if self.subject is not None:
+            v.freeze = sorted(self.cut)
+            v.subject_thread = self.subject
+            v.kind = 'hang'
         v.trace = trace
         if os.environ.get('IRSYM_DEBUG'):
             for th, lv in self.leaves.items():
